@@ -117,3 +117,38 @@ def GeomOK : Geom → Option Nat → Prop
   | .mpoint ps, _ => ∀ q ∈ ps, PosOK q
 
 end GV.GeoJson
+
+namespace GV.GeoJson
+
+/-! ### ring orientation across the antimeridian
+
+Longitudes are made continuous along the ring: every step is taken the short way round (a step of more than
+180° is a crossing of ±180).  The RFC's "counter-clockwise" is the sign of the plain shoelace area of that
+un-wrapped ring.  A ring that runs once around a pole does not close after un-wrapping (`turn ≠ 0`); for such a
+ring "counter-clockwise" has no planar meaning and nothing is claimed. -/
+
+/-- the longitude step from `a` to `b`, taken the short way round -/
+def dlon (a b : Rat) : Rat :=
+  if b - a > 180 then b - a - 360 else if b - a < -180 then b - a + 360 else b - a
+
+/-- the ring with continuous longitudes, the first vertex at longitude `u` -/
+def unwrapFrom (u : Rat) : List Pt → List Pt
+  | a :: b :: r => (u, a.2) :: unwrapFrom (u + dlon a.1 b.1) (b :: r)
+  | [a] => [(u, a.2)]
+  | [] => []
+
+def unwrap : List Pt → List Pt
+  | [] => []
+  | a :: r => unwrapFrom a.1 (a :: r)
+
+/-- total signed longitude travelled along the ring (0 for a ring that does not run around a pole) -/
+def turn (r : List Pt) : Rat := chain (fun a b => dlon a.1 b.1) r
+
+/-- stored longitudes are in `[-180, 180]` -/
+def LonOK (r : List Pt) : Prop := ∀ p ∈ r, -180 ≤ p.1 ∧ p.1 ≤ 180
+
+/-- twice the signed area of the un-wrapped ring, `none` when it does not close -/
+def winding (r : List Pt) : Option Rat :=
+  if turn r = 0 then some (area2 (unwrap r)) else none
+
+end GV.GeoJson
